@@ -32,7 +32,7 @@ pub struct Hist {
     /// 8 several small ranges (multipart) with a matching If-Range, 9 non-matching If-Range + range
     pub first: u8,
     /// bitmask: 1 INM, 2 IMS, 4 IM, 8 IUS, 16 If-Range+Range, 32 a junk If-Modified-Since beside the
-    /// echoed INM (when IMS is not echoed), 64 a junk If-Unmodified-Since beside the echoed IM
+    /// echoed INM (when IMS is not echoed), 64 a junk If-Unmodified-Since beside the echoed IM, 128 a Range header without If-Range
     pub echo: u8,
 }
 
@@ -239,6 +239,11 @@ pub fn check(h: &Hist, acc: &mut Acc) -> Check {
             req2 = req2.with("if-range", etag.as_ref().unwrap()).with("range", "bytes=1-2");
             used |= 16;
         }
+        // A plain Range header beside the echoed validators (no If-Range): a validator that says
+        // "not modified" wins over the range.
+        if h.echo & 128 != 0 && used & 16 == 0 {
+            req2 = req2.with("range", "bytes=0-1");
+        }
         // A date header that is not an HTTP-date beside the echoed tag header that makes it ignored
         // (RFC 7232 3.3 / 3.4): the cache-friendly answer must not change.
         if h.echo & 32 != 0 && used & 1 != 0 && used & 2 == 0 {
@@ -287,6 +292,8 @@ pub fn check(h: &Hist, acc: &mut Acc) -> Check {
                     "echoing the strong ETag in If-Range must give the requested 206; {}",
                     what()
                 );
+            } else if h.echo & 128 != 0 {
+                ensure!(st2 == 206, format!("echo-range-not-206:{sig_echo}:{st2}"), "a satisfiable Range and no failing precondition: expected 206, got {st2}; {}", what());
             } else {
                 ensure!(st2 == 200, format!("echo-not-200:{sig_echo}:{st2}"), "no range requested and no failing precondition: expected 200, got {st2}; {}", what());
             }
@@ -309,6 +316,9 @@ fn mtimes() -> Vec<Mtime> {
         Mtime::Future(86_400, 0),
         Mtime::Future(86_400, 500_000_000),
         Mtime::At(7_258_118_400, 0),
+        // just written: this very second, and half a minute ago
+        Mtime::At(reqgen::now_secs(), 0),
+        Mtime::At(reqgen::now_secs() - 30, 500_000_000),
     ]
 }
 
@@ -321,7 +331,7 @@ fn header_sets() -> Vec<Vec<(String, Bs)>> {
 }
 
 fn random_strategy() -> BoxedStrategy<Hist> {
-    (reqgen::etag_strategy(), reqgen::mtime_strategy(), reqgen::entity_headers_strategy(), 0u8..10, 0u8..128)
+    (reqgen::etag_strategy(), reqgen::mtime_strategy(), reqgen::entity_headers_strategy(), 0u8..10, any::<u8>())
         .prop_map(|(etag, mtime, headers, first, echo)| Hist {
             etag,
             mtime,
@@ -379,7 +389,10 @@ pub fn run_all(cx: &Cx) -> Acc {
     acc.merge(par_units(cx, "enumerated", &units, true, "etag x mtime x header sets x 10 first requests x 32 echo subsets", |cx, (etag, m), acc| {
         for headers in header_sets() {
             for first in 0..10 {
-                for echo in 0..128u8 {
+                for echo in 0..=255u8 {
+                    if echo & 128 != 0 && (echo & 16 != 0 || echo & 0x60 != 0) {
+                        continue; // the plain Range only beside plain echoes
+                    }
                     // the junk-date bits only where they add a header
                     if (echo & 32 != 0 && (echo & 1 == 0 || echo & 2 != 0)) || (echo & 64 != 0 && (echo & 4 == 0 || echo & 8 != 0)) {
                         continue;
